@@ -206,3 +206,36 @@ Example D3_unrepaired_hole :
 Proof.
   eexists _, _, _. split; [vm_compute; reflexivity|]. split; [repeat constructor|]. vm_compute. auto.
 Qed.
+
+(* ===============================================================================================================
+   OUTSIDE the hypothesis of C14_exact (its histories are set / start / append* / stop cycles): a `set` issued while
+   the device is Running -- the runtime does this when acquire_configure is called on a running runtime (known finding
+   of C08); storage_set replaces Running by the driver's answer Armed without stopping the device -- followed by
+   start / append / stop on the new path.  No theorem covers such histories; the check runs a separate generated stream
+   of them against this model (which is total on every history) and against the independent file oracle.  On the
+   minimal one the model says: both files are exact (raw_start resets the offset), the first file's descriptor 3 is
+   never closed (the C08 finding's consequence; C16's theorems exclude it by `disciplined`) ... *)
+Definition h_set_while_running : list op :=
+  [OSet "a.raw" 0; OStart; OAppend (mkPkt (bytes_of [1; 2; 3]) []);
+   OSet "file://b.raw" 0;                                                  (* while Running *)
+   OStart; OAppend (mkPkt (bytes_of [6; 7]) []); OStop].
+
+Example set_while_running_model :
+  exists rs d' o',
+    run FUEL fixed h_set_while_running (dev_init KRaw) (os_init [0; 1; 2] (fun _ => COk) (fun _ => WFull)) = Ret (rs, d', o') /\
+    all_ok rs /\ disciplined rs = false /\
+    fs o' "a.raw" = Some (bytes_of [1; 2; 3]) /\ fs o' "b.raw" = Some (bytes_of [6; 7]) /\
+    fds_of o' = [3; 0; 1; 2].
+Proof.
+  eexists _, _, _. split; [vm_compute; reflexivity|]. split; [repeat constructor|]. vm_compute. auto.
+Qed.
+
+(* ... and a raw_start that does not reset the offset (variant without repair 01; a reset moved to raw_stop behaves the
+   same on this history, since no stop lies between the two starts) leaves a hole as long as the first file *)
+Example set_while_running_offset_not_reset :
+  exists rs d' o',
+    run FUEL without_d3 h_set_while_running (dev_init KRaw) (os_init [0; 1; 2] (fun _ => COk) (fun _ => WFull)) = Ret (rs, d', o') /\
+    all_ok rs /\ fs o' "b.raw" = Some (bytes_of [0; 0; 0; 6; 7]).
+Proof.
+  eexists _, _, _. split; [vm_compute; reflexivity|]. split; [repeat constructor|]. vm_compute. auto.
+Qed.
